@@ -111,8 +111,11 @@ def render(doc, L, fixed=None):
         return _case(s, fixed['case'] if fixed.get('case') is not None else L.pick(4))
 
     out = []
+    written = []     # the document with identifiers spelled as rendered (what the reader must keep)
     for cmd in doc:
         k = cmd['k']
+        if k != 'entry':
+            written.append(cmd)
         if k == 'junk':
             out.append(cmd['text'])
             continue
@@ -129,17 +132,30 @@ def render(doc, L, fixed=None):
             out.append('@' + ws() + case('preamble') + ws() + o + ws() + render_value(cmd['value'], L, fixed, ws) + ws() + c + ws())
             continue
         # entry
-        s = '@' + ws() + case(cmd['type']) + ws() + o + ws() + cmd['key'] + ws() + ','
+        wtype = case(cmd['type'])
+        s = '@' + ws() + wtype + ws() + o + ws() + cmd['key'] + ws() + ','
         fs = []
+        wfields = []
         for name, pieces in cmd['fields']:
-            fs.append(ws() + case(name) + ws() + '=' + ws() + render_value(pieces, L, fixed, ws) + ws())
+            wname = case(name)
+            wfields.append([wname, pieces])
+            fs.append(ws() + wname + ws() + '=' + ws() + render_value(pieces, L, fixed, ws) + ws())
+        written.append({'k': 'entry', 'type': wtype, 'key': cmd['key'], 'fields': wfields})
         s += ','.join(fs)
         trailing = fixed['trailing'] if fixed.get('trailing') is not None else bool(L.pick(2))
         if trailing and fs:
             s += ',' + ws()
         s += c + ws()
         out.append(s)
+    if fixed.get('_want_written'):
+        return ''.join(out), written
     return ''.join(out)
+
+
+def render_written(doc, L, fixed=None):
+    f = dict(fixed or {})
+    f['_want_written'] = True
+    return render(doc, L, f)
 
 
 def expand(pieces, macros):
